@@ -22,7 +22,7 @@ Theorem C15_write_fail_throws : forall (A : Type) (data : list A) e o, data <> [
 Proof. exact (@write_fail_throws). Qed.
 
 Theorem C15_write_zero_throws : forall (A : Type) (data : list A) o, data <> [] ->
-  write_loop (Done 0 :: o) data = ([], o, Throw (EFd 0)).
+  write_loop (Done 0 :: o) data = ([], o, Throw EZero).
 Proof. exact (@write_zero_throws). Qed.
 
 (* interrupted calls never change the result: same bytes, same status with every Eintr removed *)
@@ -108,13 +108,19 @@ Theorem C15_pwrite_eintr_invariant : forall (A : Type) (zero : A) o (f : list A)
   pwrite_loop zero o f data off = (f', m, r, st) -> pwrite_loop zero (strip o) f data off = (f', m, strip r, st).
 Proof. exact (@pwrite_strip). Qed.
 
-(* util::FileStream, any capacity, any sequence of write / operator<< / flush, then the destructor's flush:
-   the bytes handed to write(2) are a prefix of the concatenation of the arguments, and all of it when
-   nothing threw *)
-Theorem C15_filestream_refines_concat : forall (A : Type) cap ops o (buf : list A) w r s,
-  fs_run cap o buf ops = (w, r, s) ->
-  (s = Ok -> w = buf ++ concat (map fs_data ops)) /\
+(* util::FileStream, any capacity, any sequence of write / operator<< / flush: up to the first operation
+   that throws, the bytes handed to write(2) are a prefix of the concatenation of the arguments, and together
+   with the buffered bytes they are all of it when nothing threw *)
+Theorem C15_filestream_ops_prefix : forall (A : Type) cap ops o (buf buf' : list A) w r s,
+  fs_ops cap o buf ops = (buf', w, r, s) ->
+  (s = Ok -> w ++ buf' = buf ++ concat (map fs_data ops)) /\
   (exists rest, buf ++ concat (map fs_data ops) = w ++ rest).
+Proof. exact (@fs_ops_spec). Qed.
+
+(* ... and over the stream's whole life including the destructor's flush: success means the kernel got exactly
+   the concatenation of the arguments *)
+Theorem C15_filestream_refines_concat : forall (A : Type) cap ops o (buf : list A) w r s,
+  fs_run cap o buf ops = (w, r, s) -> s = FsOk -> w = buf ++ concat (map fs_data ops).
 Proof. exact (@fs_run_spec). Qed.
 
 (* the stream's buffer never holds more than its capacity (Ensure's assert, write's memcpy), provided every
